@@ -573,6 +573,19 @@ class SimH(SimA):
                 hs += [(k, one) for one in v]   # a repeated header line
             else:
                 hs.append((k, v))
+        wire_body = body or b''
+        if body is not None and 'content-length' in given and \
+                (headers or {}).get('content-length',
+                                    (headers or {}).get('Content-Length',
+                                                        0)) is None:
+            # a body WITHOUT a declared length: on the wire that is a chunked
+            # upload (the framework hands the server the body and no
+            # Content-Length)
+            hs.append(('Transfer-Encoding', 'chunked'))
+            k = max(1, len(body) // 3)
+            wire_body = b''.join(
+                b'%x\r\n%s\r\n' % (len(body[i:i + k]), body[i:i + k])
+                for i in range(0, len(body), k)) + b'0\r\n\r\n'
         head = '%s %s%s HTTP/1.1\r\n' % (method, path,
                                          ('?' + qs) if qs else '')
         head += ''.join('%s: %s\r\n' % h for h in hs) + '\r\n'
@@ -582,7 +595,7 @@ class SimH(SimA):
             # runs (aiohttp does not cancel handlers by default)
             self.mw_delay = 0.25
             self.loop.call_later(0.125, conn.tr.drop)
-        conn.feed(head.encode('latin-1', 'replace') + (body or b''))
+        conn.feed(head.encode('latin-1', 'replace') + wire_body)
         return t
 
     def teardown(self):
